@@ -139,6 +139,7 @@ def run(ctx):
                 ctx.report(f"a PBES2 JWE produced by joserfc with p2c={p2c} is rejected by the independent implementation: {why}",
                            {"alg": alg, "p2c": p2c, "value": v.decode()}, f"interop:impl->ref:{alg.split('+')[0]}:p2c")
     multi_recipient_interop(ctx)
+    rotated_keys_same_kids(ctx)
     other_info(ctx)
     vectors(ctx)
 
@@ -182,6 +183,49 @@ def multi_recipient_interop(ctx):
             if not ok:
                 ctx.report(f"recipient #{i} ({a}) of a JWE produced by joserfc for {algs} ({enc}) cannot be used by the independent implementation: {why}",
                            {"algs": algs, "enc": enc, "i": i, "value": v}, f"interop:impl->ref:multi:{a.split('+')[0]}")
+
+
+def rotated_keys_same_kids(ctx):
+    """History: key generations that keep their kids (rotation in place, two tenants naming their keys alike).  After
+    ECDH-1PU / ECDH-ES operations between one pair of keys, the same operations between NEW keys carrying the same two kids
+    are computed from the new key material: what joserfc produces is read by the reference, and vice versa."""
+    from joserfc import jwe
+    from joserfc.jwk import OKPKey, ECKey
+    for alg, enc in (("ECDH-1PU", "A256GCM"), ("ECDH-1PU+A128KW", "A128CBC-HS256"), ("ECDH-ES", "A128GCM"), ("ECDH-ES+A256KW", "A256GCM")):
+        for gen_cls, crv in ((OKPKey, "X25519"), (ECKey, "P-256")):
+            for generation in (1, 2, 3):
+                bob = gen_cls.generate_key(crv, {"kid": "bob-enc"})
+                alice = gen_cls.generate_key(crv, {"kid": "alice-enc"})
+                bob_pub = gen_cls.import_key(bob.as_dict(private=False))
+                alice_pub = gen_cls.import_key(alice.as_dict(private=False))
+                one_pu = alg.startswith("ECDH-1PU")
+                pt = f"generation {generation}".encode()
+                # joserfc -> reference
+                try:
+                    tok = jwe.encrypt_compact({"alg": alg, "enc": enc}, pt, bob_pub, algorithms=E.ALL_NAMES, sender_key=alice if one_pu else None).encode()
+                    got = R.decrypt(tok, bob.raw_value, alice.raw_value.public_key() if one_pu else None)
+                    ok, why = got == pt, "plaintext differs"
+                except R.RefReject as e:
+                    ok, why = False, str(e)
+                except Exception as e:  # noqa: BLE001
+                    ok, why = False, "encrypt: " + err_name(e)
+                ctx.count("rotated-same-kids", (alg, crv, generation, "impl->ref"), True, alg)
+                if not ok:
+                    ctx.report(f"key generation {generation} (same kids, new key material, {crv}): a {alg} JWE produced by joserfc is rejected by the independent implementation: {why}",
+                               {"alg": alg, "enc": enc, "generation": generation, "recipient": bob.as_dict(private=True), "sender": alice.as_dict(private=True)},
+                               f"interop:impl->ref:rotated:{alg.split('+')[0]}")
+                # reference -> joserfc
+                try:
+                    tok2 = R.encrypt(alg, enc, bob.raw_value.public_key(), pt, sender_priv=alice.raw_value if one_pu else None)
+                    back = jwe.decrypt_compact(tok2, bob, algorithms=E.ALL_NAMES, sender_key=alice_pub if one_pu else None).plaintext
+                    ok, why = back == pt, "plaintext differs"
+                except Exception as e:  # noqa: BLE001
+                    ok, why = False, err_name(e)
+                ctx.count("rotated-same-kids", (alg, crv, generation, "ref->impl"), True, alg)
+                if not ok:
+                    ctx.report(f"key generation {generation} (same kids, new key material, {crv}): a {alg} JWE produced by the independent implementation is rejected by joserfc: {why}",
+                               {"alg": alg, "enc": enc, "generation": generation, "token": tok2.decode(), "recipient": bob.as_dict(private=True)},
+                               f"interop:ref->impl:rotated:{alg.split('+')[0]}")
 
 
 def facts(ctx, alg, enc, ser, v):
